@@ -44,6 +44,8 @@ pub enum Op {
     AwaitFinal(usize),
     /// Wait until an interim 100 response (or a final response, or EOF) has arrived.
     Await100,
+    /// Wait until at least this many response bytes have been received (or EOF).
+    AwaitBytes(usize),
     Fin,
     Rst,
     Close,
@@ -78,6 +80,9 @@ pub struct Client {
     parsed_final: usize,
     parsed_100: bool,
     pub port_override: Option<u16>,
+    /// Applied to the connection when it is made: the server's writes fail after this many bytes.
+    pub fail_server_write_at: Option<(u64, std::io::ErrorKind)>,
+    pub keep_server_log: bool,
 }
 impl Client {
     pub fn new(ops: Vec<Op>, frag: Frag) -> Self {
@@ -97,6 +102,8 @@ impl Client {
             parsed_final: 0,
             parsed_100: false,
             port_override: None,
+            fail_server_write_at: None,
+            keep_server_log: false,
         }
     }
     pub fn done(&self) -> bool {
@@ -285,6 +292,10 @@ impl Engine {
                 None => true,
                 Some(id) => c.parsed_100 || c.parsed_final > 0 || with(|w| w.client_at_eof(id) || w.net.conns[id].client_closed),
             },
+            Op::AwaitBytes(n) => match c.conn {
+                None => true,
+                Some(id) => c.received.len() >= *n || with(|w| w.client_at_eof(id) || w.net.conns[id].client_closed),
+            },
         }
     }
 
@@ -304,6 +315,13 @@ impl Engine {
             Op::Connect => {
                 c.conn = with(|w| w.client_connect(port));
                 c.refused = c.conn.is_none();
+                if let Some(id) = c.conn {
+                    let (f, k) = (c.fail_server_write_at, c.keep_server_log);
+                    with(|w| {
+                        w.net.conns[id].fail_write_at = f;
+                        w.net.conns[id].keep_s2c_log = k;
+                    });
+                }
                 c.pc += 1;
             }
             Op::Send(data) => {
@@ -346,7 +364,7 @@ impl Engine {
                     c.pc += 1;
                 }
             }
-            Op::AwaitFinal(_) | Op::Await100 => {
+            Op::AwaitFinal(_) | Op::Await100 | Op::AwaitBytes(_) => {
                 c.pc += 1;
             }
             Op::Fin => {
